@@ -147,6 +147,12 @@ SPECS = [
     dict(name="smc_loop_body", py="samplers/smc/base.py:SMCSampler.sample", mode="smcloop", part="body"),
     dict(name="smc_epilogue", py="samplers/smc/base.py:SMCSampler.sample", mode="smcloop", part="epilogue"),
     dict(name="smc_driver", py="samplers/smc/base.py:SMCSampler.sample", mode="smcloop", part="driver"),
+    # which field is built from which, row-indexed how (seventh vocabulary: rows2lean.py)
+    dict(name="getitem_base", py="samples.py:BaseSamples.__getitem__", mode="rows", part="getitem_base"),
+    dict(name="getitem_samples", py="samples.py:Samples.__getitem__", mode="rows", part="getitem_samples"),
+    dict(name="getitem_smc", py="samples.py:SMCSamples.__getitem__", mode="rows", part="getitem_smc"),
+    dict(name="resample_return", py="samples.py:SMCSamples.resample", mode="rows", part="resample_return"),
+    dict(name="to_standard_samples", py="samples.py:SMCSamples.to_standard_samples", mode="rows", part="to_standard"),
     # how the samplers evaluate the user's functions (sixth vocabulary: eval2lean.py)
     dict(name="sampler_log_likelihood", py="samplers/base.py:Sampler.log_likelihood", mode="eval", part="wrapper"),
     dict(name="draw_initial_samples", py="samplers/mcmc.py:MCMCSampler.draw_initial_samples", mode="eval", part="draw"),
@@ -181,6 +187,7 @@ GROUPS = {
     "SrcFlows": ([], ["zuko_log_prob", "zuko_sample_and_log_prob", "flowjax_log_prob", "flowjax_sample_and_log_prob"]),
     "SrcDump": ([], ["dump_pickle_to_hdf"]),
     "SrcLoop": ([], ["should_checkpoint", "loop_exit", "init_min_step", "resume_loop_flag", "final_evidence"]),
+    "SrcRows": (["RowOps"], ["getitem_base", "getitem_samples", "getitem_smc", "resample_return", "to_standard_samples"]),
     "SrcEval": (["EvalOps"], ["sampler_log_likelihood", "draw_initial_samples", "importance_eval", "mcmc_target_eval", "smc_target_eval",
                               "minipcn_mutate_eval", "emcee_mutate_eval"]),
     "SrcFile": (["FileOps"], ["fit_file_block", "sample_pre_block", "sample_post_block"]),
